@@ -156,19 +156,25 @@ Definition tab_heal : otab :=
 Definition O_heal := oracles_of tab_heal.
 Definition gen_heal (k : nat) : Z := if (k <? 3)%nat then 7 else 0.
 
+Definition heal_sum (x : outcome (hres numQ) * stats * list (list call)) :=
+  match x with
+  | (Ret h, st, ls) =>
+      (h_outcome h, h_tagged h, q_obs (h_final h),
+       match h_folded h with
+       | Some r => Some (e_valid r, e_structure r, e_strategy r, q_obs (e_conf r))
+       | None => None
+       end,
+       map (fun a : rattempt numQ => (ra_num a, ra_raw a, ra_success a, q_obs (ra_conf a))) (h_attempts h),
+       (st_total st, st_successful st, length ls))
+  | _ => (HDegraded, false, [], None, [], (-1, -1, 0%nat))
+  end.
+
 Example ex_heal_late :
-  exists h st ls,
-    heal numQ O_heal cfg [] gen_heal 3 (2 # 5) stats0 = (Ret h, st, ls) /\
-    h_outcome h = HHealed /\ h_tagged h = false /\ (h_final h == 0)%Q /\
-    (exists r, h_folded h = Some r /\ e_valid r = true /\ e_structure r = Some 0 /\
-               e_strategy r = Some STRICT /\ (e_conf r == 0)%Q) /\
-    map (fun a : rattempt numQ => (ra_num a, ra_raw a, ra_success a, q_obs (ra_conf a))) (h_attempts h) =
-      [(0%nat, 7, false, [0; 1]); (1%nat, 7, false, [0; 1]); (2%nat, 7, false, [0; 1]); (3%nat, 0, true, [0; 1])] /\
-    st_total st = 4 /\ st_successful st = 1 /\ length ls = 4%nat.
-Proof.
-  do 3 eexists. split; [vm_compute; reflexivity|]. vm_compute.
-  repeat split. eexists. repeat split.
-Qed.
+  heal_sum (heal numQ O_heal cfg [] gen_heal 3 (2 # 5) stats0) =
+  (HHealed, false, [0; 1], Some (true, Some 0, Some STRICT, [0; 1]),
+   [(0%nat, 7, false, [0; 1]); (1%nat, 7, false, [0; 1]); (2%nat, 7, false, [0; 1]); (3%nat, 0, true, [0; 1])],
+   (4, 1, 4%nat)).
+Proof. vm_compute. reflexivity. Qed.
 
 (* healed on attempt 1 with decay 1/10: min(1, 1 - 1/10) = 9/10 although STRICT succeeded
    (so "confidence 1 iff STRICT" of a bare fold becomes "1 only for STRICT" through the loop);
@@ -193,8 +199,14 @@ Proof. intros k. split; intros H; discriminate H. Qed.
 (* a heal inside a history shares the counters with the other calls and, like them,
    returns what it returns on a fresh Chaperone *)
 Example ex_heal_in_history :
+  let B := base_of [5; 10; 0] tab_heal in
   let ops := [HFoldEnhanced 7 0 []; HHeal gen_heal 0 3 1 (-2); HFold 0 0 []] in
-  run_hist numQ (base_of [5; 10; 0] tab_heal) [] (mkCS stats0 []) ops =
-  run_fresh numQ (base_of [5; 10; 0] tab_heal) [] [] ops /\
-  st_total (cs_stats (fold_left (fun s op => fst (hstep numQ (base_of [5; 10; 0] tab_heal) [] s op)) ops (mkCS stats0 []))) = 6.
+  map (fun o : hout numQ => match o with
+                            | OHeal r ls => heal_sum (r, stats0, ls)
+                            | _ => (HDegraded, false, [], None, [], (0, 0, 0%nat))
+                            end) (firstn 1 (skipn 1 (run_hist numQ B [] (mkCS stats0 []) ops))) =
+    [(HHealed, false, [1; 4], Some (true, Some 0, Some STRICT, [1; 4]),
+      [(0%nat, 7, false, [0; 1]); (1%nat, 7, false, [0; 1]); (2%nat, 7, false, [0; 1]); (3%nat, 0, true, [1; 4])],
+      (0, 0, 4%nat))] /\
+  st_total (cs_stats (fold_left (fun s op => fst (hstep numQ B [] s op)) ops (mkCS stats0 []))) = 6.
 Proof. vm_compute. split; reflexivity. Qed.
